@@ -49,6 +49,40 @@ CHECKS["C17"] = dict(
          "algebra for all pairs nor end-to-end equality of behaviour under shifted origins.",
     ref="DESIGN.md section 3 C17")
 
+CHECKS["C10"] = dict(
+    technique="exception-escape analysis of JitterBuffer.add under an inductively checked class invariant; who-may-write scan; sibling-structure rules; serial-number qualifier analysis; def-use",
+    text="Decides: add() cannot raise for any packet (ring indices discharged by the invariant len(_packets) == _capacity and x % capacity < capacity); the ring "
+         "never grows; every direct discard raises the video PLI flag; the late-packet reset threshold is the constant 100; sequence numbers and timestamps are "
+         "only handled through wrap-safe operations and `is None` sentinels; the receiver uses add()'s two results faithfully. It does not decide frame integrity or "
+         "release guarantees over arrival histories.",
+    ref="DESIGN.md section 3 C10")
+CHECKS["C13"] = dict(
+    technique="typestate per call site from must-event guards evaluated over the four states; finite-domain evaluation of the DCEP writer/reader and of the bufferedamountlow predicate; structural pairing rules",
+    text="Decides: readyState only moves forward at every _setReadyState call site; DATA_CHANNEL_OPEN written and read agree for all ordering/reliability "
+         "combinations and non-ASCII labels/protocols; bufferedAmount is raised and lowered by len() of the very bytes queued/sent and bufferedamountlow fires "
+         "exactly on downward crossings; ids have role parity and step 2, a reset is only queued for a channel with an id, and association close closes every "
+         "channel unconditionally. It does not decide behaviour under fault schedules or open/close races beyond the transition relation.",
+    ref="DESIGN.md section 3 C13")
+CHECKS["C15"] = dict(
+    technique="exception-escape analysis of RemoteBitrateEstimator.add with intervals, float bounds and class invariants; paired-update rule; must-event guard rule; grid evaluation of the clamp expressions",
+    text="Decides: no division by zero, negative sqrt, bad index or unbounded REMB SSRC count can escape the estimator; _total changes only together with the "
+         "buckets; the latest measurement is recorded whenever one exists; update() returns the clamped value and the clamp / over-use cut respect the 1.5x+10kbit/s "
+         "and 85 % bounds on a grid of values. Two numeric denominators are exempted with reasons. It does not decide the numeric behaviour of the filter.",
+    ref="DESIGN.md section 3 C15")
+CHECKS["C16"] = dict(
+    technique="finite-domain evaluation of descriptor writer/reader over the complete flag space and of the packetisers over boundary size classes; linear length forms for the STAP-A budget",
+    text="Decides: VP8 descriptor __bytes__/parse agree for all 360 combinations of optional fields and PictureID widths; VP8 packetisation yields payloads <= 1300 "
+         "with the S bit only on the first packet and bytes verbatim for boundary buffer lengths; FU-A fragments carry exactly one start/end marker and the original "
+         "header bits for all 256 header octets; the STAP-A size budget is decremented by exactly the bytes appended. It does not decide the <= 1300 bound of "
+         "STAP-A/FU-A for all size sequences nor reconstruction for all inputs.",
+    ref="DESIGN.md section 3 C16")
+CHECKS["C18"] = dict(
+    technique="data-dependence and guard (must-event) rules, serial qualifier analysis, grid evaluation of fraction_lost against RFC 3550 A.3, interval analysis of the packed report fields",
+    text="Decides: the reported highest sequence includes wrap cycles and the cycle counter only advances for in-order packets; timestamp differences are reduced "
+         "modulo 2^32; fraction_lost equals the RFC formula on a grid incl. duplicates/late arrivals; packets_lost, highest_sequence, jitter and lsr provably fit "
+         "their RTCP fields. The upper bound of dlsr and numeric equality over histories are not decided.",
+    ref="DESIGN.md section 3 C18")
+
 NOT_APPLICABLE = {
     "C06": "every clause quantifies over loss schedules, timers and the interleaving of several channels' fragments across heap queues; no "
            "clause has a structural necessary condition that is not merely a description of one implementation (DESIGN.md section 5). Its "
